@@ -740,7 +740,7 @@ def build_case(prog, env, run_test_with=None):
 
         def sib_handler(case_, result, exc):
             env.user_handler_log.append((env.world.tick(), "sibling", "skip"))
-            case_._add_reason("sibling-handler-skip")
+            case_.addDetail("reason", _content.text_content("sibling-handler-skip"))
             result.addSkip(case_, details=case_.getDetails())
 
         for name in sorted(USER_CLASSES):
@@ -765,7 +765,7 @@ def build_case(prog, env, run_test_with=None):
         def handler(case_, result, exc, method=method, h=h):
             env.user_handler_log.append((env.world.tick(), h["cls"], h["reports"]))
             if method == "addSkip":
-                case_._add_reason("user-handler-skip")
+                case_.addDetail("reason", _content.text_content("user-handler-skip"))
             getattr(result, method)(case_, details=case_.getDetails())
 
         pos = min(h["pos"], len(case.exception_handlers))
